@@ -322,12 +322,18 @@ def scmWalk (back : Nat â†’ Option Nat) (st : St) (target : Nat) : Nat â†’ Nat â
          | none => [.panic]
          | some p => scmWalk back st target fuel p)
 
+/-- `min_iters > max_iters`. -/
+def quantBad (q : Quant) : Bool :=
+  match q.max with
+  | some m => decide (m < q.min)
+  | none => false
+
 /-- `Insn::Loop1CharBody { min_iters, max_iters, greedy }` followed by the one-character
 instruction with test `p` (`run_scm_loop`).  `min_iters > max_iters` (excluded by the parser; a
 debug assertion) counts as "no match", as in `loop1Iter`. -/
 def loop1Scm16 (inp : Input16) (p : Nat â†’ Bool) (q : Quant) (fwd : Bool) (st : St) : List Out :=
   let step := fun pos => charStep16 inp fwd pos p
-  if (match q.max with | some m => decide (m < q.min) | none => false) then []
+  if quantBad q then []
   else
     match scmRun step q.min st.pos with
     | none => []
